@@ -43,7 +43,7 @@ class ZoneResult:
         self.sites.append(kw)
 
 
-def check_zone(bodies, confirmed=None, param_ranges=None, only_kinds=None, call_discharge=None, keep_iv=False):
+def check_zone(bodies, confirmed=None, param_ranges=None, only_kinds=None, call_discharge=None, keep_iv=False, iv_of=None):
     """bodies: iterable of Body.  confirmed: {(fn path, kind, ordinal): reason}."""
     confirmed = confirmed or {}
     res = ZoneResult()
@@ -53,7 +53,9 @@ def check_zone(bodies, confirmed=None, param_ranges=None, only_kinds=None, call_
         calls = [(bb, t, k) for bb, t, k in calls if k]
         if not asserts and not calls:
             continue
-        iv = Intervals(b, param_ranges=(param_ranges or {}).get(b.path))
+        iv = iv_of(b) if iv_of is not None else None
+        if iv is None:
+            iv = Intervals(b, param_ranges=(param_ranges or {}).get(b.path))
         ords = {}
         for bb, t in asserts:
             kind = "assert:" + t.d[3]
